@@ -876,14 +876,15 @@ class MacroProgram(ElementProgram):
             )
 
             # A computed value cannot be protected without delimiters:
-            # an attribute written ``name=value`` is quoted once its
-            # value is dynamic.
-            if eq and not quote and (
-                    expr is not None or '${' in (text or '')):
+            # an attribute written ``name=value`` (or just ``name``) is
+            # quoted once its value is dynamic.
+            msgid = I18N_ATTRIBUTES.get(name, missing)
+            if not quote and name is not None and (
+                    expr is not None or '${' in (text or '') or
+                    msgid is not missing or implicit_i18n):
                 quote = '"'
 
             char_escape = ('&', '<', '>', quote)
-            msgid = I18N_ATTRIBUTES.get(name, missing)
 
             # If (by heuristic) ``text`` contains one or more
             # interpolation expressions, apply interpolation
